@@ -629,7 +629,7 @@ impl World {
     }
 
     // ------------------------------------------------------------ projection
-    fn chunks6(e_from: usize, payload: &[u8], n: u8, problems: &mut Vec<String>) -> Vec<Value> {
+    pub fn chunks6(e_from: usize, payload: &[u8], n: u8, problems: &mut Vec<String>) -> Vec<Value> {
         let mut w: Vec<p6::Warning> = Vec::new();
         let mut it = p6::ChunksIter::new(payload, n);
         let mut out = Vec::new();
@@ -965,3 +965,6 @@ impl World {
 }
 
 pub mod drive;
+
+pub mod net;
+pub mod netiso;
